@@ -25,6 +25,7 @@ var lexEnt = map[string]string{
 	"param": "local function fn(ent) return ent end", "forvar": "for ent = 1, 2 do print(ent) end",
 	"attr": "local ent <const> = 1", "attr2": "local zq <const>, ent <const> = 1, 2", "local2": "local zq, ent = 1, 2",
 	"forin2": "for zq, ent in pairs({}) do print(ent) end",
+	"undef": "print(ent)", "gundef": "print(_G.ent)", "retfield": "return { ent = 1 }",
 }
 var lexFollow = map[string]bool{"local": true, "lfunc": true, "global": true, "gfunc": true, "attr": true, "attr2": true, "local2": true}
 var lexEOL = map[string]string{"LF": "\n", "CRLF": "\r\n", "CR": "\r"}
@@ -104,6 +105,9 @@ func lxBuild(id int, raw json.RawMessage) *Job {
 	pc.Steps = append(pc.Steps, openStep("f.lua", text))
 	d := &lxData{tc: &tc, text: text, steps: map[string][]int{}}
 	for _, o := range tc.Occs {
+		if tc.Ent == "undef" || tc.Ent == "gundef" || tc.Ent == "retfield" {
+			break // nothing is declared / the field is asked about from the requiring file
+		}
 		for _, m := range []string{"textDocument/definition", "textDocument/references", "textDocument/documentHighlight", "textDocument/rename"} {
 			var p json.RawMessage
 			switch m {
@@ -117,6 +121,12 @@ func lxBuild(id int, raw json.RawMessage) *Job {
 			pc.Steps = append(pc.Steps, proto.Step{M: m, P: p})
 			d.steps[m] = append(d.steps[m], len(pc.Steps)-1)
 		}
+	}
+	if tc.Ent == "retfield" {
+		user := "local md = require(\"f\")" + e + "print(md.ent)" + e
+		pc.Files["u.lua"] = user
+		pc.Steps = append(pc.Steps, openStep("u.lua", user), proto.Step{M: "textDocument/definition", P: posParams("u.lua", 1, 10)})
+		d.steps["retdef"] = []int{len(pc.Steps) - 1}
 	}
 	pc.Steps = append(pc.Steps, proto.Step{M: "textDocument/documentSymbol", P: json.RawMessage(`{"textDocument":{"uri":"file://$ROOT/f.lua"}}`)})
 	d.steps["sym"] = []int{len(pc.Steps) - 1}
@@ -158,7 +168,19 @@ func lxJudge(c *Ctx, j *Job, res *proto.Result) {
 		}
 		return r
 	}
+	undefEnt := d.tc.Ent == "undef" || d.tc.Ent == "gundef"
+	if st := d.steps["retdef"]; len(st) == 1 {
+		locs, _ := projLocs(res.Root, res.Steps[st[0]].Reply)
+		if len(locs) != 1 || locs[0].File != "f.lua" {
+			prob = append(prob, fmt.Sprintf("definition of md.ent (md = require(\"f\")) returns %v, the field is declared in f.lua", locs))
+		} else if r := checkNamed("definition of the returned table's field", locs[0].SL, locs[0].SC, locs[0].EL, locs[0].EC); r != declR {
+			prob = append(prob, fmt.Sprintf("definition of md.ent answers %s, the field's identifier is at %s", r, declR))
+		}
+	}
 	for k := range d.tc.Occs {
+		if undefEnt || d.tc.Ent == "retfield" {
+			break
+		}
 		locs, _ := projLocs(res.Root, res.Steps[d.steps["textDocument/definition"][k]].Reply)
 		if len(locs) != 1 {
 			prob = append(prob, fmt.Sprintf("definition at occurrence %d returns %d locations", k, len(locs)))
@@ -219,6 +241,20 @@ func lxJudge(c *Ctx, j *Job, res *proto.Result) {
 			}
 		}
 	}
+	if undefEnt {
+		saw2 := false
+		for _, x := range view["f.lua"] {
+			if x.Type == 2 && strings.Contains(x.Msg, "ent") {
+				saw2 = true
+				if r := checkNamed("undefined-variable diagnostic", x.SL, x.SC, x.EL, x.EC); r != declR {
+					prob = append(prob, fmt.Sprintf("undefined-variable diagnostic at %s, the name is at %s", r, declR))
+				}
+			}
+		}
+		if !saw2 {
+			prob = append(prob, "no undefined-variable diagnostic for ent")
+		}
+	}
 	if d.tc.Ent == "unused" && !saw4 {
 		prob = append(prob, "no unused-local diagnostic for ent")
 	}
@@ -270,7 +306,7 @@ func checkC04(c *Ctx) {
 	if c.Thorough() {
 		mp = 3
 	}
-	cfg := fmt.Sprintf("CONSTANTS\n  MaxPrefix = %d\n  Frags = %s\n  Entities = {\"local\",\"unused\",\"lfunc\",\"global\",\"gfunc\",\"param\",\"forvar\",\"attr\",\"attr2\",\"local2\",\"forin2\"}\n  Endings = {\"LF\",\"CRLF\",\"CR\"}\nINIT Init\nNEXT Next\nINVARIANTS ColNonNeg Emit\nCHECK_DEADLOCK FALSE\n", mp, frags)
+	cfg := fmt.Sprintf("CONSTANTS\n  MaxPrefix = %d\n  Frags = %s\n  Entities = {\"local\",\"unused\",\"lfunc\",\"global\",\"gfunc\",\"param\",\"forvar\",\"attr\",\"attr2\",\"local2\",\"forin2\",\"undef\",\"gundef\",\"retfield\"}\n  Endings = {\"LF\",\"CRLF\",\"CR\"}\nINIT Init\nNEXT Next\nINVARIANTS ColNonNeg Emit\nCHECK_DEADLOCK FALSE\n", mp, frags)
 	if c.Replay != "" {
 		raw, err := loadReplayCase(c.Replay)
 		if err != nil {
